@@ -495,3 +495,91 @@ def r_wire(ctx, rule):
     ctx.ob(rule, "frames pass through json and utf-8 only", not bad_out and not bad_in, "",
            "%d frames, %d echoed command values" % (nout, nin))
     ctx.require(rule, nout, 10, "outbound frames")
+
+
+def r_ident(ctx, rule, ops, what):
+    """Identifiers are opaque: the name / id a command carries is handed to
+    the namespace / mailbox operation exactly as received (or as remembered
+    from an earlier command of the connection).  A strip(), lower(), slice or
+    re-encoding on the way makes two different identifiers one, or makes the
+    string a later command uses differ from the one that was stored."""
+    from ..events import each_event, is_client_value
+    from ..terms import show, walk
+    model = ctx.model
+    ctx.rule(rule, "client-supplied identifiers reach %s unchanged" % "/".join(
+        o.split(".")[-1] for o in ops))
+    n = 0
+    seen = set()
+    for p, e, loops in each_event(model, ["ws:onMessage"], ("call",)):
+        if e["callee"] not in ops or not e["func"].startswith("WebSocketServer."):
+            continue
+        for a in list(e["args"]) + [v for _, v in (e.get("kwargs") or ())]:
+            if not is_client_value(a):
+                continue
+            n += 1
+            t = a
+            bare = (t[0] == "sub" and t[2][0] == "const") or \
+                (t[0] == "call" and t[1] == ".get" and len(t[2]) >= 2 and t[2][1][0] == "const")
+            key = (e["site"], bare)
+            if key in seen:
+                continue
+            seen.add(key)
+            ctx.ob(rule, "%s: argument of %s" % (e["func"], e["callee"]), bare, e,
+                   "" if bare else "the operation is given %s, a transformed copy of what the "
+                   "client sent: %s" % (show(a)[:70], what))
+    ctx.require(rule, n, 2, "client-supplied arguments of the operations")
+
+
+def r_nocfg(ctx, rule, op, what):
+    """What an operation does to the channel store, to the registries and to
+    the subscribers does not depend on the configuration (a usage database
+    being configured, the blur interval, listing, request logging): the set of
+    channel effects of the operation is the same on the paths where a
+    configuration value was decided true and on those where it was decided
+    false.  Only usage-database statements may sit under `if self._usage_db:`."""
+    from ..events import construct_of
+    from ..e3 import pc_truth
+    model = ctx.model
+    ctx.rule(rule, "channel statements, commits, evictions and listener callbacks inside %s "
+             "occur under both settings of every configuration value" % op)
+    by_pol = {}      # source -> {True: {site: event}, False: {...}}
+    n = 0
+    for en in model.runtime_entries():
+        for p in model.paths(en):
+            inside = {}
+            active = False
+            for e, _ in all_events(p):
+                if e["k"] == "call" and e["callee"] == op:
+                    active = True
+                    continue
+                if not active or op not in (e.get("func"),) + tuple(e.get("stack", ())):
+                    continue
+                k = e["k"]
+                chan = (k == "sql" and e["db"] == "chan" and e["stmt"].mutating) or \
+                    (k == "commit" and e["db"] == "chan" and e.get("was_dirty")) or \
+                    k in ("reg_del", "callback")
+                if chan:
+                    n += 1
+                    inside[(k, e["site"][:2])] = e
+            if not inside:
+                continue
+            truth = pc_truth(p.pc)
+            for t, v in truth.items():
+                if t[0] == "cfg" and v in (True, False):
+                    by_pol.setdefault(t[1], {True: {}, False: {}})[v].update(inside)
+    bad = 0
+    for src, d in sorted(by_pol.items()):
+        if not d[True] or not d[False]:
+            continue          # the operation was only seen under one setting
+        for key in sorted(set(d[True]) ^ set(d[False])):
+            e = d[True].get(key) or d[False].get(key)
+            only = key in d[True]
+            bad += 1
+            label = construct_of(e) if e["k"] in ("sql", "commit") else "%s: %s" % (
+                e["func"], e["k"])
+            ctx.ob(rule, "%s [independent of %s]" % (label, src), False, e,
+                   "inside %s this happens only when %s is %s: %s" % (
+                       op, src, "set" if only else "unset", what))
+    ctx.ob(rule, "%s: channel effects independent of the configuration" % op, bad == 0, "",
+           "%d effect sites, %d configuration sources seen on its paths" % (n, len(by_pol)))
+    ctx.require(rule, n, 1, "channel effects inside %s" % op)
